@@ -63,6 +63,11 @@ func (b *siteBuilder) failing(r *Res) *Res {
 	case 1:
 		r.FailFirst, r.FailKind = 1+b.pick("failn", 3), []int{500, 503, 429, 0}[b.pick("failkind", 4)]
 		b.feat["fail-then-ok"] = true
+	case 2:
+		if r.Kind != "redirect" && r.Kind != "status" {
+			r.BodyErr = true
+			b.feat["body-read-error"] = true
+		}
 	}
 	return r
 }
